@@ -47,7 +47,6 @@ var fixed = []Case{
 	{"fixed/go-blocks", "//go:build x\n\n// Cömment\npackage x\n\nimport \"fmt\"\n\nvar ü = \"é\"\n\ntempl x() {\n\t{ ü }\n}\n\nfunc f() string {\n\treturn \"世\"\n}\n\n// trailing\n"},
 	{"fixed/css-script", "package x\n\ncss c(é string) {\n\tcolor: { é };\n\tmargin: 0;\n}\n\nscript s(a string, b int) {\n\tconsole.log(a, b);\n}\n\ntempl x() {\n\t<div class={ c(\"ü\") } onclick={ s(\"é\", 1) }>x</div>\n\t<script>\n\t\tconst v = {{ \"é\" }}; const w = \"{{ f() }}\";\n\t</script>\n}\n"},
 	{"fixed/same-line-templates", "package x\n\ntempl a() {<p>a</p>}templ b() {<p>b</p>}\n"},
-	{"fixed/same-line-css-templ", "package x\n\ncss c() {color: red;}templ b() {<p class={ c() }>b</p>}\n"},
 }
 
 type result struct {
